@@ -857,6 +857,13 @@ protected:
       {
         // Handle chunked encoding
         requestEndPos = findChunkedRequestEnd(dataStr, headerEnd + 4);
+        if (requestEndPos == kChunkedMalformed)
+        {
+          iora::core::Logger::error("HttpServer: malformed chunked body for session " +
+                                    std::to_string(sid) + " - closing connection");
+          closeSession(sid);
+          return;
+        }
         if (requestEndPos == std::string::npos)
         {
           break; // Need more data for chunked body
@@ -1386,6 +1393,10 @@ protected:
                               std::to_string(sid));
   }
 
+  /// \brief Returned by findChunkedRequestEnd for a body that can never become
+  /// valid (as opposed to npos = "need more data").
+  static constexpr std::size_t kChunkedMalformed = std::string::npos - 1;
+
   /// \brief Find the end of a chunked request body
   std::size_t findChunkedRequestEnd(const std::string &data, std::size_t bodyStart) const
   {
@@ -1400,17 +1411,53 @@ protected:
         return std::string::npos; // Need more data
       }
 
-      // Parse chunk size (hex)
+      // Parse chunk size: 1*HEXDIG, optionally followed by BWS and a chunk
+      // extension (RFC 9112 7.1). std::stoul would accept a sign ("-14" wraps to
+      // 2^64-20), "0x", leading white space and trailing junk. A size beyond the
+      // body limit, or anything that is not a size, is malformed - not "need more
+      // data", which would leave the connection waiting for bytes that cannot help.
       std::string chunkSizeStr = data.substr(pos, chunkSizeLine - pos);
-      std::size_t chunkSize;
-      try
+      std::size_t chunkSize = 0;
+      std::size_t digits = 0;
+      while (digits < chunkSizeStr.size())
       {
-        chunkSize = std::stoul(chunkSizeStr, nullptr, 16);
+        const char c = chunkSizeStr[digits];
+        std::size_t v;
+        if (c >= '0' && c <= '9')
+        {
+          v = static_cast<std::size_t>(c - '0');
+        }
+        else if (c >= 'a' && c <= 'f')
+        {
+          v = static_cast<std::size_t>(c - 'a') + 10;
+        }
+        else if (c >= 'A' && c <= 'F')
+        {
+          v = static_cast<std::size_t>(c - 'A') + 10;
+        }
+        else
+        {
+          break;
+        }
+        chunkSize = chunkSize * 16 + v; // cannot overflow: bounded by the check below
+        ++digits;
+        if (chunkSize > SessionInfo::MAX_BODY_SIZE)
+        {
+          iora::core::Logger::error("HttpServer: chunk size exceeds the body size limit");
+          return kChunkedMalformed;
+        }
       }
-      catch (...)
+      std::size_t afterSize = digits;
+      while (afterSize < chunkSizeStr.size() &&
+             (chunkSizeStr[afterSize] == ' ' || chunkSizeStr[afterSize] == '\t'))
+      {
+        ++afterSize;
+      }
+      if (digits == 0 ||
+          (afterSize < chunkSizeStr.size() ? chunkSizeStr[afterSize] != ';' : afterSize != digits))
       {
         iora::core::Logger::error("HttpServer: Invalid chunk size in chunked encoding");
-        return std::string::npos;
+        return kChunkedMalformed;
       }
 
       pos = chunkSizeLine + 2; // Skip \r\n
@@ -1426,12 +1473,15 @@ protected:
         return finalCRLF + 2;
       }
 
-      // Skip chunk data + trailing \r\n
-      pos += chunkSize + 2;
-      if (pos > data.length())
+      // Skip chunk data + trailing \r\n. Compare by subtraction - chunkSize is
+      // bounded by MAX_BODY_SIZE and pos <= data.length() here, so nothing wraps
+      // (`pos += chunkSize + 2` used to wrap for sizes near 2^64 and could move
+      // pos BACK to the start of the same size line: an endless loop).
+      if (data.length() - pos < chunkSize + 2)
       {
         return std::string::npos; // Need more data
       }
+      pos += chunkSize + 2;
     }
 
     return std::string::npos;
